@@ -10,6 +10,7 @@ import (
 	"sync"
 	"testing"
 	"time"
+	"verif/harness/guard"
 
 	codec "github.com/uhppoted/uhppote-core/encoding/UTO311-L0x"
 	"github.com/uhppoted/uhppote-core/messages"
@@ -183,6 +184,24 @@ func decideRTNoZone(c rtCase) (*rp.Fail, string, bool) {
 		if err != nil {
 			fail = rp.Failf("codec.Unmarshal/rejects-own-encoding", "%s in zone %s: decoding the encoding %x failed: %v", typeName, c.Zone, enc, err)
 			return
+		}
+		// the same 64 bytes flush against unreadable memory (they end where a readable page ends / start where one starts):
+		// nothing but the message is read
+		if guard.Available() {
+			for i := 0; i < 2; i++ {
+				placed, release := guard.Place(enc, i == 0)
+				var g reflect.Value
+				var gerr error
+				p := guard.Do(func() { g, gerr = decode(placed) })
+				release()
+				if p != nil || gerr != nil {
+					fail = rp.Failf("codec.Unmarshal/reads-beyond-the-message", "%s: decoding %x placed %s failed: %v %v", typeName, enc, []string{"at the end of a readable page", "at the start of a readable page"}[i], p, gerr)
+					return
+				} else if d := fv.FirstDiff(fv.CanonAll(dec), fv.CanonAll(g)); d != "" {
+					fail = rp.Failf("codec.Unmarshal/reads-beyond-the-message", "%s: %x decodes differently when it is placed against an unreadable page: %s", typeName, enc, d)
+					return
+				}
+			}
 		}
 		after := fv.CanonAll(dec)
 		// a decoded date-time is that civil time in the process zone: the same instant as time.Date(.., time.Local)
